@@ -60,7 +60,15 @@ func universe() (*DAG, int, int, []int, int) {
 	s2 := d.Manifest("S2", c, nil, ManifestOpt{Subject: -1, Annotations: map[string]string{"which": "s2"}})
 	var refs []int
 	for i := 0; i < 3; i++ {
-		refs = append(refs, d.Manifest(fmt.Sprintf("R%d", i), c, nil, ManifestOpt{Subject: s, ArtifactType: fmt.Sprintf("application/vnd.t.r%d", i), Annotations: map[string]string{"n": fmt.Sprint(i)}}))
+		o := ManifestOpt{Subject: s, ArtifactType: fmt.Sprintf("application/vnd.t.r%d", i), Annotations: map[string]string{"n": fmt.Sprint(i)}}
+		if i == 2 {
+			// R2 names the same subject digest with another media type and size in its subject descriptor:
+			// the referrers index is addressed by the digest alone, so both updates hit one index
+			sd := d.Nodes[s].Desc
+			sd.MediaType, sd.Size = MTDockerManifest, sd.Size+1
+			o.SubjectDesc = &sd
+		}
+		refs = append(refs, d.Manifest(fmt.Sprintf("R%d", i), c, nil, o))
 	}
 	q := d.Artifact("Q", []int{l}, ManifestOpt{Subject: s2, ArtifactType: "application/vnd.t.q"})
 	return d, s, s2, refs, q
